@@ -50,9 +50,11 @@ if [ "$need_h" = 1 ]; then
   (cd harness && go build $MODFILE -tags verif -overlay ../.work/overlay.json -o ../.work/bin/h ./cmd/h)
 fi
 if [ "$need_hs" = 1 ]; then
-  FILES=engine/logic/jump.go,engine/queue/queue.go,engine/pipeline/pipes.go,engine/core/processors.go,jobstorage/serializer.go,gripper/channel_mux.go,gdbi/processor.go,kvgraph/graph.go,kvgraph/index.go,kvindex/kvindex.go,server/api.go,kvgraph/new.go,kvgraph/graphdb.go,jobstorage/storage.go
+  FILES=engine/logic/jump.go,engine/queue/queue.go,engine/pipeline/pipes.go,engine/core/processors.go,jobstorage/serializer.go,gripper/channel_mux.go,gdbi/processor.go,kvgraph/graph.go,kvgraph/index.go,kvindex/kvindex.go,server/api.go,kvgraph/new.go,kvgraph/graphdb.go,jobstorage/storage.go,server/metagraphs.go,server/job_manager.go,server/server.go,timestamp/timestamp.go
+  # files whose memory accesses are hooked for the happens-before race detector (C17)
+  RACE=server/api.go,server/metagraphs.go,server/job_manager.go,server/server.go,timestamp/timestamp.go,kvgraph/graph.go,kvgraph/index.go,kvgraph/new.go,kvgraph/graphdb.go,kvindex/kvindex.go,jobstorage/storage.go,engine/queue/queue.go,engine/logic/jump.go
   .work/bin/instr -repo "$REPO" -out "$VERIF_ROOT/.work/instr" -files "$FILES" \
-     -mute engine/logic/jump.go,engine/queue/queue.go -clock gdbi/processor.go -io jobstorage/storage.go > .work/instr/out.json
+     -mute engine/logic/jump.go,engine/queue/queue.go -clock gdbi/processor.go -io jobstorage/storage.go -race "$RACE" > .work/instr/out.json
   hooks_overlay .work/instr/out.json > .work/overlay_sched.json
   (cd harness && go build $MODFILE -tags "verif vsched" -overlay ../.work/overlay_sched.json -o ../.work/bin/hs ./cmd/h)
 fi
